@@ -104,3 +104,19 @@ def _c13_decode_after_full_read(f: Failure) -> bool:
         and o.get("first_raised") == "DecodeError"
         and o.get("raw_body_fully_read_before_error") is True
     )
+
+
+# ---------------------------------------------------------------------------------- C11 -------
+@finding("C11", "one-shot-body-resent-short")
+def _c11_one_shot(f: Failure) -> bool:
+    """A generator / iterator body, or a file-like object without tell(), cannot be rewound and urllib3 does not
+    notice: the next attempt sends what is left of it (usually nothing) instead of raising UnrewindableBodyError."""
+    o = f["observed"] or {}
+    if o.get("kind") not in ("generator", "readonly"):
+        return False
+    if f["kind"] == "resent-body-differs":
+        return o.get("is_suffix") is True and o.get("exc") is None
+    if f["kind"] == "payload-differs":
+        # the first complete request seen by the server already followed a failed send attempt
+        return str(o.get("history", "")).startswith("sendreset1") and o.get("got", 0) < o.get("want", 0) and o.get("exc") is None
+    return False
